@@ -155,7 +155,7 @@ def main(argv):
             else:
                 violations.append((jn, o, r))
     # ---- report
-    os.makedirs(os.path.join(VERIF, 'replays'), exist_ok=True)
+    os.makedirs(os.environ.get('VERIF_REPLAY_DIR') or os.path.join(VERIF, 'replays'), exist_ok=True)
     printed = set()
     for kf, jn, o in known_hits:
         key = kf.get('id')
@@ -196,8 +196,9 @@ def main(argv):
                             violations=vio_ev, tools=driver.tool_versions(),
                             repo_head=git_head()),
               assumptions=assumptions, wall_s=round(wall, 1), violations=nviol)
-    os.makedirs(os.path.join(VERIF, 'evidence'), exist_ok=True)
-    with open(os.path.join(VERIF, 'evidence', pid + '.json'), 'w') as f:
+    evdir = os.environ.get('VERIF_EVIDENCE_DIR') or os.path.join(VERIF, 'evidence')
+    os.makedirs(evdir, exist_ok=True)
+    with open(os.path.join(evdir, pid + '.json'), 'w') as f:
         json.dump(ev, f, indent=1)
     if not a.keep:
         shutil.rmtree(work, ignore_errors=True)
